@@ -114,7 +114,7 @@ func isIntType(t types.Type) bool {
 	if t == nil {
 		return false
 	}
-	b, ok := t.Underlying().(*types.Basic)
+	b, ok := under(t).(*types.Basic)
 	if !ok {
 		return false
 	}
@@ -123,23 +123,23 @@ func isIntType(t types.Type) bool {
 }
 
 func isFloatType(t types.Type) bool {
-	b, ok := t.Underlying().(*types.Basic)
+	b, ok := under(t).(*types.Basic)
 	return ok && (b.Kind() == types.Float64 || b.Kind() == types.Float32 || b.Kind() == types.UntypedFloat)
 }
 
 func isBoolType(t types.Type) bool {
-	b, ok := t.Underlying().(*types.Basic)
+	b, ok := under(t).(*types.Basic)
 	return ok && (b.Kind() == types.Bool || b.Kind() == types.UntypedBool)
 }
 
 func isStringType(t types.Type) bool {
-	b, ok := t.Underlying().(*types.Basic)
+	b, ok := under(t).(*types.Basic)
 	return ok && (b.Kind() == types.String || b.Kind() == types.UntypedString)
 }
 
 // scalarSort gives the SMT sort of a scalar-like Go type; "" if the type is not scalar-like.
 func (c *Ctx) scalarSort(t types.Type) string {
-	switch u := t.Underlying().(type) {
+	switch u := under(t).(type) {
 	case *types.Basic:
 		if w, _, ok := intInfo(u); ok {
 			if c.mode == ModeBV {
@@ -174,7 +174,7 @@ func (c *Ctx) scalarSort(t types.Type) string {
 }
 
 func typeRange(t types.Type) (lo, hi *big.Int, ok bool) {
-	b, isB := t.Underlying().(*types.Basic)
+	b, isB := under(t).(*types.Basic)
 	if !isB {
 		return nil, nil, false
 	}
